@@ -1,6 +1,6 @@
 """C14 — a run lints exactly the non-excluded, non-ignored files under the given paths.
 
-spec/Collect.tla enumerates (ignore-pattern set, target, recursive flag) over a 180-file universe
+spec/Collect.tla enumerates (ignore-pattern set, target, recursive flag) over a 210-file universe
 and computes the files that must / must not be linted (layer A) and what the coded walk does
 (layer B).  Each case is executed with the real CLI; the orchestrator's lint decisions (H2 tap)
 and the reported files are judged by TLC (CollectTrace.tla).
@@ -96,7 +96,7 @@ def run(chk) -> None:
     quick = chk.tier == "quick"
     drive.preload()
     chk.rule = ("cases = (ignore-pattern set of size <= 2 over 13 documented pattern forms, target in {root, "
-                "src, gen}, recursive flag) enumerated exhaustively by TLC over a 180-file universe with every "
+                "src, gen}, recursive flag) enumerated exhaustively by TLC over a 210-file universe with every "
                 "always-excluded directory name at depth 1 and 2, compiled artefacts and near-miss names; each "
                 "case x carrier (.thailintignore / yaml ignore; json and pyproject sampled) x explicit naming "
                 "of must-skip files; non-trivial = at least one pattern or a non-root target or non-recursive")
@@ -138,8 +138,8 @@ def run(chk) -> None:
     # the universe is the union of must_lint/must_skip/dont-care of the root recursive no-pattern case
     base = next(c for c in cases if not c["pats"] and c["recursive"] and [list(t) for t in c["target"]] == [[]])
     uni = base["must_lint"] + base["must_skip"]
-    if len(uni) != 180:
-        raise MachineryError(f"Collect: universe has {len(uni)} files, expected 180")
+    if len(uni) != 210:
+        raise MachineryError(f"Collect: universe has {len(uni)} files, expected 210")
     for j in jobs:
         j["universe"] = uni
     log(f"C14: {len(cases)} cases, {len(jobs)} runs")
@@ -161,7 +161,7 @@ def run(chk) -> None:
                         "linted": [x for x in lin if x and x["ext"] in CONTENT],
                         "reported": [frec(p) for p in o["reported"] if frec(p)]})
         meta.append((j, case, o))
-    verdicts = trace.validate(chk, "CollectTrace", "mc/CollectTrace.cfg", records, timeout=1800)
+    verdicts = trace.validate(chk, "CollectTrace", "mc/CollectTrace.cfg", records, timeout=2100)
     for (j, case, o), (la, lb, at) in zip(meta, verdicts):
         c = cases[j["case"]]
         if lb != "ok":
